@@ -671,7 +671,8 @@ def _console_only(P, fi, action):
     """Every access to <handler>.setLevel / <handler>.level on the evaluated paths is on a handler h for which the
     path (or the generator that produced h) established h.get_name() == 'console'.  Helpers are inlined, so the
     filter may be an `if` in the loop, a generator expression, or a helper returning one."""
-    exits = Evaluator(P).run(fi)
+    ev_ = Evaluator(P)
+    exits = ev_.run(fi)
 
     def is_console_test(c, h):
         return c[0] == 'cmp' and c[1] == '==' and c[3] == C('console') and c[2][0] == 'meth' \
@@ -722,6 +723,12 @@ def _console_only(P, fi, action):
                         var, it, conds = x[3][0]
                         if any(is_console_test(c, var) for c in conds) or filtered_source(var, it):
                             good = True
+                if not good:
+                    # a return from inside `for h in <filtered generator>:`
+                    for node_, sms_ in ev_.loops_seen.items():
+                        for sm_ in sms_:
+                            if sm_.var == h and filtered_source(sm_.var, sm_.iter_term):
+                                good = True
                 if not good:
                     ok, why = False, show(v)[:60]
     if nacc == 0:
